@@ -1,6 +1,1010 @@
-//! C04 — not implemented yet.
+//! C04 — RWA tokens never pass the compliance, identity, freeze and pause gates.
+//!
+//! One generated sub-check: histories over the whole `RWAToken` + `Pausable` + `FungibleToken` surface of
+//! the harness RWA token (`contracts::c04::rwa_tok::RwaTok`, thin wiring of `RWA::*`), with scripted
+//! collaborator mocks behind `ComplianceClient` / `IdentityVerifierClient`.  A tenth of the cases put the
+//! library's own modular compliance contract (`rwa::compliance::storage`) between the token and the mock.
+//!
+//! The reference model is written from the property statement and the documentation, the observed state
+//! (balances, frozen amounts, address flags, pause flag, supply) is compared with it after every step,
+//! and the compliance notification log is compared with the exact expected delta after every step.
+
+use crate::contracts::c04::{lib_compliance::LibCompliance, mock_compliance, mock_compliance::MockCompliance, mock_compliance::Note, mock_idv::MockIdVerifier, rwa_tok::RwaTok};
 use crate::engine::*;
+use crate::envx::{self, call, Inv};
+use crate::gen::pick;
+use proptest::prelude::*;
+use serde::{Deserialize, Serialize};
+use soroban_sdk::{symbol_short, Address, Env, IntoVal, TryFromVal, Val, Vec as SVec};
+use std::collections::BTreeSet;
+use stellar_tokens::fungible::Base;
+use stellar_tokens::rwa::compliance::ComplianceHook;
+use stellar_tokens::rwa::RWA;
+
+// ------------------------------------------------------------------ public set-up helper (also for an RWA flavour of C01/C02)
+
+/// Addresses of a freshly wired RWA token and its collaborators.
+pub struct RwaSetup {
+    /// the `RwaTok` contract
+    pub token: Address,
+    /// the address the token knows as its compliance contract (`MockCompliance`, or `LibCompliance` in front of it)
+    pub compliance: Address,
+    /// the `MockCompliance` instance holding the scripted answers and the notification log
+    pub mock: Address,
+    /// the `MockIdVerifier` instance
+    pub idv: Address,
+}
+
+/// Registers `MockCompliance`, `MockIdVerifier` (and `LibCompliance` when `lib_compliance`) and an `RwaTok`
+/// administered by `admin` (any plain actor from `envx::actor`).  Everything starts PERMISSIVE: every identity
+/// verifies, `can_transfer` / `can_create` answer true, nothing is frozen or paused, no recovery target is set.
+///
+/// Entry points of the token (all arguments by value):
+/// * operator only (`operator` must be `admin` and must authorize the exact invocation):
+///   `mint(to, amount, operator)`, `burn(user, amount, operator)`, `forced_transfer(from, to, amount, operator)`,
+///   `recover_balance(old, new, operator) -> bool`, `set_address_frozen(user, freeze, operator)`,
+///   `freeze_partial_tokens(user, amount, operator)`, `unfreeze_partial_tokens(user, amount, operator)`,
+///   `pause(caller)`, `unpause(caller)`;
+/// * holders (SEP-41): `transfer(from, to, amount)` (auth `from`), `transfer_from(spender, from, to, amount)`
+///   (auth `spender`), `approve(owner, spender, amount, live_until_ledger)` (auth `owner`);
+/// * getters: `balance`, `total_supply`, `allowance`, `is_frozen`, `get_frozen_tokens`, `paused`, `compliance`,
+///   `identity_verifier`.
+/// Scripting: `MockCompliance::{set_can_transfer(bool), set_can_create(bool), log(), clear_log()}` on `mock`,
+/// `MockIdVerifier::{set_identity(account, bool), set_default(bool), set_recovery_target(old, Option<Address>)}` on `idv`
+/// (none of them needs authorization).
+pub fn rwa_token_setup(e: &Env, admin: &Address, lib_compliance: bool) -> Result<RwaSetup, String> {
+    let mock = e.register(MockCompliance, ());
+    let idv = e.register(MockIdVerifier, ());
+    let compliance = if lib_compliance { e.register(LibCompliance, ()) } else { mock.clone() };
+    let token = e.register(RwaTok, (admin.clone(), compliance.clone(), idv.clone()));
+    if lib_compliance {
+        envx::no_auth(e);
+        call(e, &compliance, "bind_token", args![e; token.clone()]).map_err(|er| format!("bind_token: {er}"))?;
+        for hook in [ComplianceHook::Transferred, ComplianceHook::Created, ComplianceHook::Destroyed, ComplianceHook::CanTransfer, ComplianceHook::CanCreate] {
+            call(e, &compliance, "add_module_to", args![e; hook, mock.clone()]).map_err(|er| format!("add_module_to: {er}"))?;
+        }
+    }
+    Ok(RwaSetup { token, compliance, mock, idv })
+}
+
+// ------------------------------------------------------------------ case
+
+/// Amount selector, resolved against the model at execution time (`h` = the holder the op is about).
+#[derive(Clone, Debug, Serialize, Deserialize)]
+pub enum Amt {
+    Abs(#[serde(with = "crate::gen::i128_str")] i128),
+    /// k/4 of the balance
+    OfBal(u8),
+    /// balance + d
+    BalPlus(i8),
+    /// free balance (balance - frozen) + d
+    FreePlus(i8),
+    /// frozen amount + d
+    FrozenPlus(i8),
+    /// allowance(holder, spender) + d (free + d when there is no spender)
+    AllowPlus(i8),
+    /// min(free, allowance) + d — the largest allowance spend that can pass the freeze gate, +-d
+    MinFreeAllow(i8),
+    /// i128::MAX - supply + d
+    SupplyGap(i8),
+}
+
+/// authorization of a holder-initiated call
+#[derive(Clone, Debug, Serialize, Deserialize, PartialEq, Eq)]
+pub enum HAuth {
+    Exact,
+    /// nobody authorizes
+    Drop,
+    /// somebody else authorizes the same invocation
+    Swap(u16),
+}
+/// authorization of a supervisory call
+#[derive(Clone, Debug, Serialize, Deserialize, PartialEq, Eq)]
+pub enum OAuth {
+    Exact,
+    /// operator = admin, but no authorization entry
+    NoAuth,
+    /// an investor names itself as operator and authorizes the call
+    Impostor(u16),
+}
+
+#[derive(Clone, Debug, Serialize, Deserialize)]
+pub enum NewSel {
+    /// the scripted recovery target of the old account (falls back to `Acct(0)` when none)
+    Target,
+    Acct(u16),
+}
+
+#[derive(Clone, Debug, Serialize, Deserialize)]
+pub enum Op {
+    Mint { to: u16, amt: Amt, auth: OAuth },
+    Transfer { from: u16, to: u16, amt: Amt, auth: HAuth },
+    /// `live_pair`: when Some and some (owner, spender) pair has a non-zero allowance, use that pair
+    TransferFrom { spender: u16, from: u16, to: u16, amt: Amt, auth: HAuth, live_pair: Option<u16> },
+    Approve { owner: u16, spender: u16, amt: Amt, live: i32, auth: HAuth },
+    ForcedTransfer { from: u16, to: u16, amt: Amt, auth: OAuth },
+    Burn { from: u16, amt: Amt, auth: OAuth },
+    Recover { old: u16, new: NewSel, auth: OAuth },
+    SetRecovery { old: u16, target: Option<u16> },
+    SetAddressFrozen { who: u16, on: bool, auth: OAuth },
+    FreezePartial { who: u16, amt: Amt, auth: OAuth },
+    UnfreezePartial { who: u16, amt: Amt, auth: OAuth },
+    Pause { on: bool, auth: OAuth },
+    SetIdentity { who: u16, ok: bool },
+    SetCanTransfer { ok: bool },
+    SetCanCreate { ok: bool },
+    Advance { k: u32 },
+}
+
+#[derive(Clone, Debug, Serialize, Deserialize)]
+pub struct Case {
+    /// number of investor accounts (3..=4)
+    pub n: u8,
+    pub seq: u32,
+    /// put the library's modular compliance contract between the token and the mock
+    pub lib_compliance: bool,
+    /// initial mints (one per account, 0 = none)
+    pub init: Vec<u16>,
+    /// initial partial freeze per account: k/4 of the initial balance
+    pub init_freeze: Vec<u8>,
+    /// initial approvals (owner, spender, amount), live for 200 ledgers
+    pub init_allow: Vec<(u16, u16, u16)>,
+    /// initially scripted recovery target per account
+    pub init_target: Vec<Option<u16>>,
+    pub ops: Vec<Op>,
+}
+
+fn hauth() -> BoxedStrategy<HAuth> {
+    prop_oneof![18 => Just(HAuth::Exact), 1 => Just(HAuth::Drop), 1 => any::<u16>().prop_map(HAuth::Swap)].boxed()
+}
+fn oauth() -> BoxedStrategy<OAuth> {
+    prop_oneof![24 => Just(OAuth::Exact), 1 => Just(OAuth::NoAuth), 1 => any::<u16>().prop_map(OAuth::Impostor)].boxed()
+}
+/// amounts of holder-initiated movements: mostly around the free balance / allowance
+fn amt_move() -> BoxedStrategy<Amt> {
+    prop_oneof![
+        8 => (-1i8..=0).prop_map(Amt::FreePlus),
+        3 => Just(Amt::FreePlus(1)),
+        3 => (0u8..=4).prop_map(Amt::OfBal),
+        3 => (0i128..=40).prop_map(Amt::Abs),
+        2 => (-1i8..=1).prop_map(Amt::BalPlus),
+        2 => (-1i8..=1).prop_map(Amt::AllowPlus),
+        1 => (-1i8..=1).prop_map(Amt::FrozenPlus),
+        1 => crate::gen::amount_any().prop_map(Amt::Abs),
+    ]
+    .boxed()
+}
+/// amounts of allowance spends: mostly the largest spend that passes, and one above the free balance
+fn amt_spend() -> BoxedStrategy<Amt> {
+    prop_oneof![
+        7 => Just(Amt::MinFreeAllow(0)),
+        3 => Just(Amt::MinFreeAllow(-1)),
+        2 => Just(Amt::MinFreeAllow(1)),
+        2 => Just(Amt::FreePlus(1)),
+        1 => (0i8..=1).prop_map(Amt::AllowPlus),
+        4 => (0i128..=40).prop_map(Amt::Abs),
+        2 => (0u8..=4).prop_map(Amt::OfBal),
+        1 => crate::gen::amount_any().prop_map(Amt::Abs),
+    ]
+    .boxed()
+}
+/// amounts of supervisory movements: around free (no unfreeze needed / one token unfrozen) and balance
+fn amt_sup() -> BoxedStrategy<Amt> {
+    prop_oneof![
+        5 => (-1i8..=2).prop_map(Amt::FreePlus),
+        4 => (-1i8..=1).prop_map(Amt::BalPlus),
+        3 => (0u8..=4).prop_map(Amt::OfBal),
+        2 => (0i128..=60).prop_map(Amt::Abs),
+        1 => (-1i8..=1).prop_map(Amt::FrozenPlus),
+        1 => crate::gen::amount_any().prop_map(Amt::Abs),
+    ]
+    .boxed()
+}
+fn amt_freeze() -> BoxedStrategy<Amt> {
+    prop_oneof![
+        4 => (-1i8..=1).prop_map(Amt::FreePlus),
+        4 => (1u8..=3).prop_map(Amt::OfBal),
+        3 => (0i128..=60).prop_map(Amt::Abs),
+        1 => crate::gen::amount_any().prop_map(Amt::Abs),
+    ]
+    .boxed()
+}
+fn amt_unfreeze() -> BoxedStrategy<Amt> {
+    prop_oneof![
+        5 => (-1i8..=1).prop_map(Amt::FrozenPlus),
+        3 => (0i128..=30).prop_map(Amt::Abs),
+        1 => crate::gen::amount_any().prop_map(Amt::Abs),
+    ]
+    .boxed()
+}
+fn amt_mint() -> BoxedStrategy<Amt> {
+    prop_oneof![
+        12 => (0i128..=400).prop_map(Amt::Abs),
+        2 => crate::gen::amount_any().prop_map(Amt::Abs),
+        1 => (-1i8..=1).prop_map(Amt::SupplyGap),
+    ]
+    .boxed()
+}
+fn amt_approve() -> BoxedStrategy<Amt> {
+    prop_oneof![
+        6 => (1i128..=600).prop_map(Amt::Abs),
+        3 => (-1i8..=1).prop_map(Amt::BalPlus),
+        2 => (-1i8..=1).prop_map(Amt::FreePlus),
+        1 => crate::gen::amount_any().prop_map(Amt::Abs),
+    ]
+    .boxed()
+}
+
+fn op_strategy() -> BoxedStrategy<Op> {
+    let s = any::<u16>;
+    prop_oneof![
+        7 => (s(), amt_mint(), oauth()).prop_map(|(to, amt, auth)| Op::Mint { to, amt, auth }),
+        16 => (s(), s(), amt_move(), hauth()).prop_map(|(from, to, amt, auth)| Op::Transfer { from, to, amt, auth }),
+        15 => (s(), s(), s(), amt_spend(), hauth(), proptest::option::weighted(0.85, s()))
+            .prop_map(|(spender, from, to, amt, auth, live_pair)| Op::TransferFrom { spender, from, to, amt, auth, live_pair }),
+        10 => (s(), s(), amt_approve(), prop_oneof![8 => 0i32..60, 1 => -2i32..0, 1 => Just(i32::MAX)], hauth())
+            .prop_map(|(owner, spender, amt, live, auth)| Op::Approve { owner, spender, amt, live, auth }),
+        7 => (s(), s(), amt_sup(), oauth()).prop_map(|(from, to, amt, auth)| Op::ForcedTransfer { from, to, amt, auth }),
+        6 => (s(), amt_sup(), oauth()).prop_map(|(from, amt, auth)| Op::Burn { from, amt, auth }),
+        6 => (s(), prop_oneof![4 => Just(NewSel::Target), 1 => s().prop_map(NewSel::Acct)], oauth()).prop_map(|(old, new, auth)| Op::Recover { old, new, auth }),
+        5 => (s(), proptest::option::weighted(0.85, s())).prop_map(|(old, target)| Op::SetRecovery { old, target }),
+        6 => (s(), proptest::bool::weighted(0.5), oauth()).prop_map(|(who, on, auth)| Op::SetAddressFrozen { who, on, auth }),
+        8 => (s(), amt_freeze(), oauth()).prop_map(|(who, amt, auth)| Op::FreezePartial { who, amt, auth }),
+        4 => (s(), amt_unfreeze(), oauth()).prop_map(|(who, amt, auth)| Op::UnfreezePartial { who, amt, auth }),
+        4 => (proptest::bool::weighted(0.5), oauth()).prop_map(|(on, auth)| Op::Pause { on, auth }),
+        6 => (s(), proptest::bool::weighted(0.45)).prop_map(|(who, ok)| Op::SetIdentity { who, ok }),
+        3 => proptest::bool::weighted(0.45).prop_map(|ok| Op::SetCanTransfer { ok }),
+        2 => proptest::bool::weighted(0.45).prop_map(|ok| Op::SetCanCreate { ok }),
+        2 => prop_oneof![Just(0u32), Just(1), 2u32..70, 500u32..700].prop_map(|k| Op::Advance { k }),
+    ]
+    .boxed()
+}
+
+fn strategy(tier: Tier) -> BoxedStrategy<Case> {
+    let max_ops = tier.pick(35usize, 70usize);
+    (
+        3u8..=4,
+        100u32..3000,
+        proptest::bool::weighted(0.1),
+        proptest::collection::vec(prop_oneof![1 => Just(0u16), 5 => 1u16..=300], 4),
+        proptest::collection::vec(prop_oneof![3 => Just(0u8), 2 => 1u8..=3], 4),
+        proptest::collection::vec((any::<u16>(), any::<u16>(), 1u16..=400), 0..=3),
+        proptest::collection::vec(proptest::option::weighted(0.5, any::<u16>()), 4),
+        // one plain vector: a lower size bound would keep shrinking from removing operations
+        proptest::collection::vec(op_strategy(), 1..=max_ops),
+    )
+        .prop_map(|(n, seq, lib_compliance, init, init_freeze, init_allow, init_target, ops)| Case { n, seq, lib_compliance, init, init_freeze, init_allow, init_target, ops })
+        .boxed()
+}
+
+// ------------------------------------------------------------------ world, observation, model
+
+struct World {
+    e: Env,
+    tok: Address,
+    mock: Address,
+    idv: Address,
+    admin: Address,
+    accts: Vec<Address>,
+}
+
+/// Observable token state (bulk read through the library getters in one frame).
+#[derive(Clone, Debug, PartialEq, Eq)]
+struct Obs {
+    supply: i128,
+    bal: Vec<i128>,
+    frozen: Vec<i128>,
+    addr_frozen: Vec<bool>,
+    paused: bool,
+    /// allowance[owner][spender] as visible now
+    allow: Vec<Vec<i128>>,
+}
+
+/// Reference model = predicted observable state + the scripted collaborator state (owned by the test).
+#[derive(Clone, Debug)]
+struct Model {
+    o: Obs,
+    id_ok: Vec<bool>,
+    can_transfer: bool,
+    can_create: bool,
+    target: Vec<Option<usize>>,
+}
+
+impl World {
+    fn observe(&self) -> Obs {
+        let e = &self.e;
+        let hs = &self.accts;
+        e.as_contract(&self.tok, || Obs {
+            supply: Base::total_supply(e),
+            bal: hs.iter().map(|a| Base::balance(e, a)).collect(),
+            frozen: hs.iter().map(|a| RWA::get_frozen_tokens(e, a)).collect(),
+            addr_frozen: hs.iter().map(|a| RWA::is_frozen(e, a)).collect(),
+            paused: stellar_contract_utils::pausable::paused(e),
+            allow: hs.iter().map(|o| hs.iter().map(|s| Base::allowance(e, o, s)).collect()).collect(),
+        })
+    }
+    fn read_log(&self) -> Vec<Note> {
+        let e = &self.e;
+        e.as_contract(&self.mock, || {
+            let v: SVec<Note> = e.storage().persistent().get(&symbol_short!("log")).unwrap_or(SVec::new(e));
+            v.iter().collect()
+        })
+    }
+    /// invoke a token entry point with exactly one (or no) authorization entry for this very invocation
+    fn invoke(&self, func: &str, args: SVec<Val>, signer: Option<&Address>) -> Result<Val, String> {
+        let e = &self.e;
+        match signer {
+            Some(s) => envx::set_auth(e, &[(s, &Inv::new(&self.tok, func, args.clone()))]),
+            None => envx::no_auth(e),
+        }
+        let r = call(e, &self.tok, func, args);
+        envx::no_auth(e);
+        r
+    }
+    /// holder-initiated call; returns (result, exact authorization attached)
+    fn holder_call(&self, func: &str, args: SVec<Val>, required: &Address, mode: &HAuth) -> (Result<Val, String>, bool) {
+        match mode {
+            HAuth::Exact => (self.invoke(func, args, Some(required)), true),
+            HAuth::Drop => (self.invoke(func, args, None), false),
+            HAuth::Swap(o) => {
+                let pool: Vec<&Address> = self.accts.iter().chain([&self.admin]).filter(|a| *a != required).collect();
+                let who = pool[pick(*o, pool.len())];
+                (self.invoke(func, args, Some(who)), false)
+            }
+        }
+    }
+    /// supervisory call: `args` without the trailing operator
+    fn sup_call(&self, func: &str, mut args: SVec<Val>, mode: &OAuth) -> (Result<Val, String>, bool) {
+        let e = &self.e;
+        match mode {
+            OAuth::Exact => {
+                args.push_back(self.admin.clone().into_val(e));
+                (self.invoke(func, args, Some(&self.admin)), true)
+            }
+            OAuth::NoAuth => {
+                args.push_back(self.admin.clone().into_val(e));
+                (self.invoke(func, args, None), false)
+            }
+            OAuth::Impostor(i) => {
+                let who = self.accts[pick(*i, self.accts.len())].clone();
+                args.push_back(who.clone().into_val(e));
+                (self.invoke(func, args, Some(&who)), false)
+            }
+        }
+    }
+    fn idx(&self, sel: u16) -> usize {
+        pick(sel, self.accts.len())
+    }
+    /// counterparty selector: almost always somebody else, rarely (1/25 .. 1/17) the same account
+    fn other(&self, me: usize, sel: u16) -> usize {
+        let n = self.accts.len();
+        let k = pick(sel, 8 * (n - 1) + 1);
+        if k == 8 * (n - 1) {
+            me
+        } else {
+            let others: Vec<usize> = (0..n).filter(|i| *i != me).collect();
+            others[k / 8]
+        }
+    }
+}
+
+fn resolve_amt(amt: &Amt, m: &Model, h: usize, spender: Option<usize>) -> i128 {
+    let o = &m.o;
+    let bal = o.bal[h];
+    let free = bal.saturating_sub(o.frozen[h]);
+    let p = |x: i128, d: &i8| x.saturating_add(*d as i128);
+    match amt {
+        Amt::Abs(x) => *x,
+        Amt::OfBal(k) => bal / 4 * (*k as i128).min(4) + if *k >= 4 { bal % 4 } else { 0 },
+        Amt::BalPlus(d) => p(bal, d),
+        Amt::FreePlus(d) => p(free, d),
+        Amt::FrozenPlus(d) => p(o.frozen[h], d),
+        Amt::AllowPlus(d) => match spender {
+            Some(s) => p(o.allow[h][s], d),
+            None => p(free, d),
+        },
+        Amt::MinFreeAllow(d) => match spender {
+            Some(s) => p(o.allow[h][s].min(free), d),
+            None => p(free, d),
+        },
+        Amt::SupplyGap(d) => p(i128::MAX - o.supply, d),
+    }
+}
+
+/// Closed gates of a holder-initiated movement, in the fixed reporting order.
+fn move_gates(m: &Model, from: usize, to: usize, amount: i128) -> Vec<&'static str> {
+    let o = &m.o;
+    let mut g = vec![];
+    if o.paused {
+        g.push("paused");
+    }
+    if o.addr_frozen[from] {
+        g.push("from-frozen");
+    }
+    if o.addr_frozen[to] {
+        g.push("to-frozen");
+    }
+    // amounts above the balance are a plain balance failure, not the freeze gate
+    if amount <= o.bal[from] && amount > o.bal[from] - o.frozen[from] {
+        g.push("partial-freeze");
+    }
+    if !m.id_ok[from] {
+        g.push("identity-from");
+    }
+    if !m.id_ok[to] {
+        g.push("identity-to");
+    }
+    if !m.can_transfer {
+        g.push("compliance");
+    }
+    g
+}
+
+fn note(kind: u32, from: &Address, to: &Address, amount: i128, token: &Address) -> Note {
+    Note { kind, from: from.clone(), to: to.clone(), amount, token: token.clone() }
+}
+
+/// frozen amount of `from` after a supervisory removal of `amount`: only the minimum needed is unfrozen
+fn frozen_after_removal(o: &Obs, from: usize, amount: i128) -> i128 {
+    let free = o.bal[from] - o.frozen[from];
+    o.frozen[from] - (amount - free).max(0)
+}
+
+// ------------------------------------------------------------------ interpreter + oracle
+
+pub fn run(case: &Case, ctx: &mut Ctx) -> R {
+    let n = (case.n as usize).clamp(2, 4);
+    let e = envx::new_env(case.seq.max(1), envx::BIG_TTL);
+    let admin = envx::actor(&e);
+    let accts = envx::actors(&e, n);
+    let su = rwa_token_setup(&e, &admin, case.lib_compliance).map_err(|er| violation("C04/setup/wiring", er))?;
+    let w = World { e: e.clone(), tok: su.token.clone(), mock: su.mock.clone(), idv: su.idv.clone(), admin, accts };
+    let e = &w.e;
+    if case.lib_compliance {
+        ctx.class("lib_compliance_case");
+    }
+
+    let mut m = Model {
+        o: Obs { supply: 0, bal: vec![0; n], frozen: vec![0; n], addr_frozen: vec![false; n], paused: false, allow: vec![vec![0; n]; n] },
+        id_ok: vec![true; n],
+        can_transfer: true,
+        can_create: true,
+        target: vec![None; n],
+    };
+    // initial funding through the real mint path (all gates open)
+    for i in 0..n {
+        let a = *case.init.get(i).unwrap_or(&0) as i128;
+        if a > 0 {
+            let (r, _) = w.sup_call("mint", args![e; w.accts[i].clone(), a], &OAuth::Exact);
+            ensure!(r.is_ok(), "C04/setup/fund", "set-up mint of {a} to account {i} failed: {:?}", r);
+            m.o.bal[i] += a;
+            m.o.supply += a;
+        }
+    }
+    for i in 0..n {
+        let fz = m.o.bal[i] / 4 * (*case.init_freeze.get(i).unwrap_or(&0) as i128).min(4);
+        if fz > 0 {
+            let (r, _) = w.sup_call("freeze_partial_tokens", args![e; w.accts[i].clone(), fz], &OAuth::Exact);
+            ensure!(r.is_ok(), "C04/setup/freeze", "set-up freeze of {fz} on account {i} failed: {:?}", r);
+            m.o.frozen[i] = fz;
+        }
+    }
+    for (ow, sp, a) in &case.init_allow {
+        let oi = w.idx(*ow);
+        let si = w.other(oi, *sp);
+        let l = envx::seq(e) + 200;
+        let (r, _) = w.holder_call("approve", args![e; w.accts[oi].clone(), w.accts[si].clone(), *a as i128, l], &w.accts[oi], &HAuth::Exact);
+        ensure!(r.is_ok(), "C04/setup/approve", "set-up approve failed: {:?}", r);
+        m.o.allow[oi][si] = *a as i128;
+    }
+    for i in 0..n {
+        if let Some(Some(t)) = case.init_target.get(i) {
+            let ti = w.other(i, *t);
+            envx::no_auth(e);
+            call(e, &w.idv, "set_recovery_target", args![e; w.accts[i].clone(), Some(w.accts[ti].clone())]).map_err(|er| violation("C04/setup/set_recovery_target", er))?;
+            m.target[i] = Some(ti);
+        }
+    }
+    let o0 = w.observe();
+    ensure!(o0 == m.o, "C04/setup/state", "state after set-up {:?}, expected {:?}", o0, m.o);
+    let mut log = w.read_log();
+
+    let mut gates_hit: BTreeSet<&'static str> = BTreeSet::new();
+    let (mut tf_attempt, mut sup_partial) = (false, false);
+
+    for (step, op) in case.ops.iter().enumerate() {
+        let before = m.clone();
+        let o = &before.o;
+        // (entry point name, call succeeded, expected notifications on success)
+        let f: &'static str;
+        let ok: bool;
+        let mut expect: Vec<Note> = vec![];
+        // account whose address-freeze flag the documentation leaves open after this op (adopted from the observation)
+        let mut open_flag: Option<usize> = None;
+        let what = format!("step {step} {:?}", op);
+
+        match op {
+            // ---------------------------------------------------------------- scripted collaborators / ledger
+            Op::Advance { k } => {
+                envx::advance(e, *k);
+                let o2 = w.observe();
+                m.o.allow = o2.allow.clone(); // allowances may expire; everything else must stay
+                ensure!(o2 == m.o, "C04/advance/state-changed", "{what}: state changed by a ledger jump: {:?} -> {:?}", o, o2);
+                continue;
+            }
+            Op::SetIdentity { who, ok: v } => {
+                let i = w.idx(*who);
+                envx::no_auth(e);
+                call(e, &w.idv, "set_identity", args![e; w.accts[i].clone(), *v]).map_err(|er| violation("C04/setup/set_identity", er))?;
+                m.id_ok[i] = *v;
+                continue;
+            }
+            Op::SetCanTransfer { ok: v } => {
+                envx::no_auth(e);
+                call(e, &w.mock, "set_can_transfer", args![e; *v]).map_err(|er| violation("C04/setup/set_can_transfer", er))?;
+                m.can_transfer = *v;
+                continue;
+            }
+            Op::SetCanCreate { ok: v } => {
+                envx::no_auth(e);
+                call(e, &w.mock, "set_can_create", args![e; *v]).map_err(|er| violation("C04/setup/set_can_create", er))?;
+                m.can_create = *v;
+                continue;
+            }
+            Op::SetRecovery { old, target } => {
+                let oi = w.idx(*old);
+                let ti = target.map(|t| w.other(oi, t));
+                let tv: Option<Address> = ti.map(|t| w.accts[t].clone());
+                envx::no_auth(e);
+                call(e, &w.idv, "set_recovery_target", args![e; w.accts[oi].clone(), tv]).map_err(|er| violation("C04/setup/set_recovery_target", er))?;
+                m.target[oi] = ti;
+                continue;
+            }
+
+            // ---------------------------------------------------------------- holder-initiated movements
+            Op::Transfer { .. } | Op::TransferFrom { .. } => {
+                let (fi, ti, si, a, auth) = match op {
+                    Op::Transfer { from, to, amt, auth } => {
+                        let fi = w.idx(*from);
+                        (fi, w.other(fi, *to), None, resolve_amt(amt, &before, fi, None), auth)
+                    }
+                    Op::TransferFrom { spender, from, to, amt, auth, live_pair } => {
+                        let (mut fi, mut si) = (w.idx(*from), w.idx(*spender));
+                        if let Some(sel) = live_pair {
+                            let live: Vec<(usize, usize)> = (0..n).flat_map(|x| (0..n).map(move |y| (x, y))).filter(|(x, y)| o.allow[*x][*y] > 0).collect();
+                            if !live.is_empty() {
+                                (fi, si) = live[pick(*sel, live.len())];
+                            }
+                        }
+                        (fi, w.other(fi, *to), Some(si), resolve_amt(amt, &before, fi, Some(si)), auth)
+                    }
+                    _ => unreachable!(),
+                };
+                f = if si.is_some() { "transfer_from" } else { "transfer" };
+                let (r, exact) = match si {
+                    None => w.holder_call(f, args![e; w.accts[fi].clone(), w.accts[ti].clone(), a], &w.accts[fi], auth),
+                    Some(s) => w.holder_call(f, args![e; w.accts[s].clone(), w.accts[fi].clone(), w.accts[ti].clone(), a], &w.accts[s], auth),
+                };
+                ok = r.is_ok();
+                // documented non-gate preconditions
+                let pre: Result<(), &'static str> = if a < 0 {
+                    Err("negative-amount")
+                } else if si.map(|s| o.allow[fi][s] < a).unwrap_or(false) {
+                    Err("allowance")
+                } else if o.bal[fi] < a {
+                    Err("balance")
+                } else {
+                    Ok(())
+                };
+                let gates = move_gates(&before, fi, ti, a);
+                if exact && si.is_some() {
+                    tf_attempt = true;
+                }
+                if ok {
+                    ensure!(exact, format!("C04/{f}/unauthorized"), "{what}: succeeded in auth mode {:?}", auth);
+                    if let Some(g) = gates.first() {
+                        bail!(
+                            format!("C04/{f}/gate-bypass:{g}"),
+                            "{what}: {f}({fi}->{ti}, {a}) succeeded although gate(s) {:?} are closed; before: paused={} addr_frozen={:?} bal={:?} frozen={:?} id_ok={:?} can_transfer={}",
+                            gates,
+                            o.paused,
+                            o.addr_frozen,
+                            o.bal,
+                            o.frozen,
+                            before.id_ok,
+                            before.can_transfer
+                        );
+                    }
+                    if let Err(p) = pre {
+                        bail!(format!("C04/{f}/precondition:{p}"), "{what}: {f}({fi}->{ti}, {a}) succeeded although `{p}` fails; bal={:?} allow={:?}", o.bal, o.allow);
+                    }
+                    m.o.bal[fi] -= a;
+                    m.o.bal[ti] += a;
+                    if let Some(s) = si {
+                        m.o.allow[fi][s] -= a;
+                    }
+                    expect.push(note(mock_compliance::TRANSFERRED, &w.accts[fi], &w.accts[ti], a, &w.tok));
+                    ctx.class(&format!("ok:{f}"));
+                } else if exact && pre.is_ok() {
+                    if gates.is_empty() {
+                        // documented liveness: exact authorization, all gates open, enough free balance (and allowance)
+                        bail!(format!("C04/{f}/refused-with-open-gates"), "{what}: {f}({fi}->{ti}, {a}) refused although every gate is open: {:?}; bal={:?} frozen={:?} allow={:?}", r, o.bal, o.frozen, o.allow);
+                    }
+                    for g in &gates {
+                        ctx.class(&format!("gate:{f}:{g}"));
+                        gates_hit.insert(*g);
+                    }
+                    if gates.len() == 1 {
+                        ctx.class(&format!("only:{f}:{}", gates[0]));
+                    }
+                } else if !exact {
+                    ctx.class(&format!("rejected_auth:{f}"));
+                } else {
+                    ctx.class(&format!("rejected_pre:{f}:{}", pre.err().unwrap_or("?")));
+                }
+            }
+            Op::Approve { owner, spender, amt, live, auth } => {
+                f = "approve";
+                let oi = w.idx(*owner);
+                let si = w.other(oi, *spender);
+                let a = resolve_amt(amt, &before, oi, Some(si));
+                let l = (envx::seq(e) as i64 + *live as i64).clamp(0, u32::MAX as i64) as u32;
+                let (r, exact) = w.holder_call(f, args![e; w.accts[oi].clone(), w.accts[si].clone(), a, l], &w.accts[oi], auth);
+                ok = r.is_ok();
+                if ok {
+                    ensure!(exact, "C04/approve/unauthorized", "{what}: succeeded in auth mode {:?}", auth);
+                    // allowance semantics are C02's subject: adopt the visible value, everything else must stay
+                    m.o.allow[oi][si] = w.observe().allow[oi][si];
+                }
+            }
+
+            // ---------------------------------------------------------------- supervisory operations
+            Op::Mint { to, amt, auth } => {
+                f = "mint";
+                let ti = w.idx(*to);
+                let a = resolve_amt(amt, &before, ti, None);
+                let (r, exact) = w.sup_call(f, args![e; w.accts[ti].clone(), a], auth);
+                ok = r.is_ok();
+                let pre: Result<(), &'static str> = if a < 0 {
+                    Err("negative-amount")
+                } else if o.supply.checked_add(a).is_none() {
+                    Err("supply-overflow")
+                } else {
+                    Ok(())
+                };
+                let mut gates = vec![];
+                if !before.id_ok[ti] {
+                    gates.push("identity-to");
+                }
+                if !before.can_create {
+                    gates.push("compliance");
+                }
+                // the RWAToken trait docs also list EnforcedPause / AddressFrozen for mint; the statement does not
+                let doc_gate = o.paused || o.addr_frozen[ti];
+                if ok {
+                    ensure!(exact, "C04/mint/unauthorized", "{what}: succeeded in auth mode {:?}", auth);
+                    if let Some(g) = gates.first() {
+                        bail!(format!("C04/mint/gate-bypass:{g}"), "{what}: mint({ti}, {a}) succeeded although gate(s) {:?} are closed (id_ok={:?}, can_create={})", gates, before.id_ok, before.can_create);
+                    }
+                    if let Err(p) = pre {
+                        bail!(format!("C04/mint/precondition:{p}"), "{what}: mint({ti}, {a}) succeeded although `{p}` fails (supply {})", o.supply);
+                    }
+                    m.o.bal[ti] += a;
+                    m.o.supply += a;
+                    expect.push(note(mock_compliance::CREATED, &w.accts[ti], &w.accts[ti], a, &w.tok));
+                    ctx.class("ok:mint");
+                    if o.paused {
+                        ctx.class("mint_while_paused_ok");
+                    }
+                    if o.addr_frozen[ti] {
+                        ctx.class("mint_to_frozen_address_ok");
+                    }
+                } else if exact && pre.is_ok() {
+                    if gates.is_empty() {
+                        if doc_gate {
+                            ctx.class("stricter_than_model:mint");
+                        } else {
+                            bail!("C04/mint/refused-with-open-gates", "{what}: mint({ti}, {a}) refused although the recipient is verified and compliance approves: {:?}", r);
+                        }
+                    }
+                    for g in &gates {
+                        ctx.class(&format!("gate:mint:{g}"));
+                        gates_hit.insert(*g);
+                    }
+                    if gates.len() == 1 {
+                        ctx.class(&format!("only:mint:{}", gates[0]));
+                    }
+                }
+            }
+            Op::ForcedTransfer { from, to, amt, auth } => {
+                f = "forced_transfer";
+                let fi = w.idx(*from);
+                let ti = w.other(fi, *to);
+                let a = resolve_amt(amt, &before, fi, None);
+                let (r, exact) = w.sup_call(f, args![e; w.accts[fi].clone(), w.accts[ti].clone(), a], auth);
+                ok = r.is_ok();
+                let pre_ok = a >= 0 && a <= o.bal[fi];
+                if ok {
+                    ensure!(exact, "C04/forced_transfer/unauthorized", "{what}: succeeded in auth mode {:?}", auth);
+                    ensure!(pre_ok, "C04/forced_transfer/precondition", "{what}: forced_transfer({fi}->{ti}, {a}) succeeded with balance {}", o.bal[fi]);
+                    m.o.frozen[fi] = frozen_after_removal(o, fi, a);
+                    m.o.bal[fi] -= a;
+                    m.o.bal[ti] += a;
+                    if fi == ti {
+                        // a forced transfer onto itself needs no unfreezing at all; the docs do not say which of the
+                        // two readings applies, so anything between "nothing" and "the formula" is accepted
+                        let seen = w.observe().frozen[fi];
+                        if seen >= m.o.frozen[fi] && seen <= o.frozen[fi] {
+                            m.o.frozen[fi] = seen;
+                        }
+                        ctx.class("forced_transfer_onto_itself");
+                    }
+                    expect.push(note(mock_compliance::TRANSFERRED, &w.accts[fi], &w.accts[ti], a, &w.tok));
+                    ctx.class("ok:forced_transfer");
+                    if o.frozen[fi] > 0 {
+                        sup_partial = true;
+                        ctx.class(if m.o.frozen[fi] < o.frozen[fi] { "forced_transfer_unfreezes" } else { "forced_transfer_keeps_freeze" });
+                    }
+                    for g in move_gates(&before, fi, ti, a) {
+                        ctx.class(&format!("forced_through:{g}"));
+                    }
+                } else if exact && pre_ok {
+                    // documented errors: InsufficientBalance, LessThanZero only; pause and address freeze are bypassed
+                    if before.id_ok[fi] && before.id_ok[ti] && before.can_transfer {
+                        bail!("C04/forced_transfer/refused", "{what}: forced_transfer({fi}->{ti}, {a}) by the operator refused: {:?}; bal={:?} frozen={:?}", r, o.bal, o.frozen);
+                    }
+                    ctx.class("stricter_than_model:forced_transfer");
+                }
+            }
+            Op::Burn { from, amt, auth } => {
+                f = "burn";
+                let fi = w.idx(*from);
+                let a = resolve_amt(amt, &before, fi, None);
+                let (r, exact) = w.sup_call(f, args![e; w.accts[fi].clone(), a], auth);
+                ok = r.is_ok();
+                let pre_ok = a >= 0 && a <= o.bal[fi];
+                if ok {
+                    ensure!(exact, "C04/burn/unauthorized", "{what}: succeeded in auth mode {:?}", auth);
+                    ensure!(pre_ok, "C04/burn/precondition", "{what}: burn({fi}, {a}) succeeded with balance {}", o.bal[fi]);
+                    m.o.frozen[fi] = frozen_after_removal(o, fi, a);
+                    m.o.bal[fi] -= a;
+                    m.o.supply -= a;
+                    expect.push(note(mock_compliance::DESTROYED, &w.accts[fi], &w.accts[fi], a, &w.tok));
+                    ctx.class("ok:burn");
+                    if o.frozen[fi] > 0 {
+                        sup_partial = true;
+                        ctx.class(if m.o.frozen[fi] < o.frozen[fi] { "burn_unfreezes" } else { "burn_keeps_freeze" });
+                    }
+                    if o.addr_frozen[fi] {
+                        ctx.class("burn_of_frozen_address_ok");
+                    }
+                } else if exact && pre_ok {
+                    // the trait docs list AddressFrozen for burn; the library function does not check it
+                    if !o.addr_frozen[fi] && !o.paused {
+                        bail!("C04/burn/refused", "{what}: burn({fi}, {a}) by the operator refused: {:?}; bal={:?} frozen={:?}", r, o.bal, o.frozen);
+                    }
+                    ctx.class("stricter_than_model:burn");
+                }
+            }
+            Op::Recover { old, new, auth } => {
+                f = "recover_balance";
+                let oi = w.idx(*old);
+                let ni = match new {
+                    NewSel::Target => before.target[oi].unwrap_or(0),
+                    NewSel::Acct(x) => w.idx(*x),
+                };
+                let (r, exact) = w.sup_call(f, args![e; w.accts[oi].clone(), w.accts[ni].clone()], auth);
+                ok = r.is_ok();
+                let is_target = before.target[oi] == Some(ni);
+                if let Ok(v) = &r {
+                    ensure!(exact, "C04/recover_balance/unauthorized", "{what}: succeeded in auth mode {:?}", auth);
+                    ensure!(is_target, "C04/recover_balance/wrong-target", "{what}: recovery {oi}->{ni} succeeded although the registered recovery target of {oi} is {:?}", before.target[oi]);
+                    ensure!(before.id_ok[ni], "C04/recover_balance/identity-new", "{what}: recovery {oi}->{ni} succeeded although the new account fails identity verification");
+                    let ret = bool::try_from_val(e, v).map_err(|_| violation("C04/recover_balance/return-type", format!("{what}: non-bool return")))?;
+                    let moved = o.bal[oi];
+                    ensure!(ret == (moved > 0), "C04/recover_balance/return-value", "{what}: returned {ret} for a lost balance of {moved}");
+                    if moved > 0 {
+                        let fr = o.frozen[oi];
+                        let fl = o.addr_frozen[oi];
+                        m.o.bal[oi] -= moved;
+                        m.o.bal[ni] += moved;
+                        m.o.frozen[oi] -= fr;
+                        m.o.frozen[ni] += fr;
+                        m.o.addr_frozen[ni] = m.o.addr_frozen[ni] || fl;
+                        if oi != ni {
+                            // whether the emptied old wallet stays flagged is not documented
+                            open_flag = Some(oi);
+                        }
+                        expect.push(note(mock_compliance::TRANSFERRED, &w.accts[oi], &w.accts[ni], moved, &w.tok));
+                        ctx.class("ok:recover_balance");
+                        if fr > 0 {
+                            sup_partial = true;
+                            ctx.class("recover_carries_partial_freeze");
+                        }
+                        if fl {
+                            ctx.class("recover_carries_address_freeze");
+                        }
+                        if oi == ni {
+                            ctx.class("recover_onto_itself");
+                        }
+                    } else {
+                        ctx.class("recover_zero_balance_false");
+                    }
+                } else if exact {
+                    if is_target && before.id_ok[ni] {
+                        if o.paused {
+                            ctx.class("stricter_than_model:recover_balance");
+                        } else {
+                            bail!("C04/recover_balance/refused", "{what}: recovery {oi}->{ni} towards the registered target with a verified new account refused: {:?}", r);
+                        }
+                    } else {
+                        ctx.class(if !is_target { "recover_refused:wrong-target" } else { "recover_refused:identity-new" });
+                    }
+                }
+            }
+            Op::SetAddressFrozen { who, on, auth } => {
+                f = "set_address_frozen";
+                let i = w.idx(*who);
+                let (r, exact) = w.sup_call(f, args![e; w.accts[i].clone(), *on], auth);
+                ok = r.is_ok();
+                ensure!(ok == exact, "C04/set_address_frozen/auth", "{what}: exact operator auth = {exact}, call ok = {ok}: {:?}", r);
+                if ok {
+                    m.o.addr_frozen[i] = *on;
+                }
+            }
+            Op::FreezePartial { who, amt, auth } => {
+                f = "freeze_partial_tokens";
+                let i = w.idx(*who);
+                let a = resolve_amt(amt, &before, i, None);
+                let (r, exact) = w.sup_call(f, args![e; w.accts[i].clone(), a], auth);
+                ok = r.is_ok();
+                let pre_ok = a >= 0 && o.frozen[i].checked_add(a).map(|x| x <= o.bal[i]).unwrap_or(false);
+                ensure!(ok == (exact && pre_ok), "C04/freeze_partial_tokens/domain", "{what}: freeze({i}, {a}) with bal {} frozen {} exact auth {exact}: ok = {ok} ({:?})", o.bal[i], o.frozen[i], r);
+                if ok {
+                    m.o.frozen[i] += a;
+                    ctx.class("ok:freeze_partial");
+                }
+            }
+            Op::UnfreezePartial { who, amt, auth } => {
+                f = "unfreeze_partial_tokens";
+                let i = w.idx(*who);
+                let a = resolve_amt(amt, &before, i, None);
+                let (r, exact) = w.sup_call(f, args![e; w.accts[i].clone(), a], auth);
+                ok = r.is_ok();
+                let pre_ok = a >= 0 && a <= o.frozen[i];
+                ensure!(ok == (exact && pre_ok), "C04/unfreeze_partial_tokens/domain", "{what}: unfreeze({i}, {a}) with frozen {} exact auth {exact}: ok = {ok} ({:?})", o.frozen[i], r);
+                if ok {
+                    m.o.frozen[i] -= a;
+                    ctx.class("ok:unfreeze_partial");
+                }
+            }
+            Op::Pause { on, auth } => {
+                f = if *on { "pause" } else { "unpause" };
+                let (r, exact) = w.sup_call(f, args![e], auth);
+                ok = r.is_ok();
+                let should = exact && o.paused != *on;
+                ensure!(ok == should, format!("C04/{f}/alternation-or-auth"), "{what}: paused before = {}, exact auth = {exact}: ok = {ok} ({:?})", o.paused, r);
+                if ok {
+                    m.o.paused = *on;
+                }
+            }
+        }
+        ctx.op(ok);
+
+        // ---- observable state vs model
+        let o2 = w.observe();
+        if let (true, Some(i)) = (ok, open_flag) {
+            m.o.addr_frozen[i] = o2.addr_frozen[i];
+        }
+        if !ok {
+            ensure!(o2 == before.o, format!("C04/{f}/refused-call-changed-state"), "{what}: refused but state changed {:?} -> {:?}", before.o, o2);
+        } else if o2 != m.o {
+            let clause = match f {
+                "forced_transfer" | "burn" if o2.frozen != m.o.frozen && o2.bal == m.o.bal => "unfreeze-not-minimal",
+                "recover_balance" if o2.bal != m.o.bal => "balance-not-moved-whole",
+                "recover_balance" if o2.frozen != m.o.frozen => "partial-freeze-not-carried",
+                "recover_balance" if o2.addr_frozen != m.o.addr_frozen => "address-freeze-not-carried",
+                _ => "state-mismatch",
+            };
+            bail!(format!("C04/{f}/{clause}"), "{what}: state after the call {:?}, model {:?} (before {:?})", o2, m.o, before.o);
+        }
+        // ---- invariant 0 <= frozen <= balance, supply = sum of balances
+        for i in 0..n {
+            ensure!(
+                0 <= o2.frozen[i] && o2.frozen[i] <= o2.bal[i],
+                "C04/invariant/frozen-within-balance",
+                "{what}: account {i} has frozen {} with balance {}",
+                o2.frozen[i],
+                o2.bal[i]
+            );
+        }
+        ensure!(o2.bal.iter().sum::<i128>() == o2.supply, "C04/invariant/supply", "{what}: balances {:?} do not add up to the supply {}", o2.bal, o2.supply);
+        // ---- compliance notifications: exactly the expected delta
+        let log2 = w.read_log();
+        let delta: Vec<Note> = if log2.len() >= log.len() && log2[..log.len()] == log[..] { log2[log.len()..].to_vec() } else { log2.clone() };
+        if delta != expect || log2.len() < log.len() {
+            let clause = if !ok {
+                "notified-by-failed-call"
+            } else if delta.len() > expect.len() {
+                "notified-more-than-once"
+            } else if delta.len() < expect.len() {
+                "not-notified"
+            } else {
+                "wrong-notification"
+            };
+            bail!(format!("C04/{f}/compliance-log:{clause}"), "{what}: compliance notifications {:?}, expected exactly {:?}", delta, expect);
+        }
+        log = log2;
+    }
+
+    // entry-point view of the final state agrees with the bulk read
+    let o = w.observe();
+    envx::no_auth(e);
+    for i in 0..n {
+        let a = w.accts[i].clone();
+        let b = envx::call_t::<i128>(e, &w.tok, "balance", args![e; a.clone()]).map_err(|er| violation("C04/api/balance-failed", er))?;
+        let fz = envx::call_t::<i128>(e, &w.tok, "get_frozen_tokens", args![e; a.clone()]).map_err(|er| violation("C04/api/get_frozen_tokens-failed", er))?;
+        let fl = envx::call_t::<bool>(e, &w.tok, "is_frozen", args![e; a]).map_err(|er| violation("C04/api/is_frozen-failed", er))?;
+        ensure!(b == o.bal[i] && fz == o.frozen[i] && fl == o.addr_frozen[i], "C04/api/getter-mismatch", "account {i}: entry points say ({b}, {fz}, {fl}), bulk read ({}, {}, {})", o.bal[i], o.frozen[i], o.addr_frozen[i]);
+    }
+    let p = envx::call_t::<bool>(e, &w.tok, "paused", args![e]).map_err(|er| violation("C04/api/paused-failed", er))?;
+    ensure!(p == o.paused, "C04/api/getter-mismatch", "paused() = {p}, bulk read {}", o.paused);
+
+    ctx.class(&format!("distinct_gates_refused:{}", gates_hit.len().min(4)));
+    if sup_partial {
+        ctx.class("case_with_supervisory_op_on_partial_freeze");
+    }
+    if gates_hit.len() >= 3 && tf_attempt && sup_partial {
+        ctx.nontrivial = true;
+        ctx.class("nontrivial");
+    }
+    Ok(())
+}
 
 pub fn property() -> Property {
-    Property { id: "C04", rule: "", subs: vec![], floors: vec![], assumptions: vec![] }
+    Property {
+        id: "C04",
+        rule: "case = (3..4 investor accounts funded through mint, start ledger, token wired to MockCompliance directly or (1/10) through the library's modular compliance, \
+               history of <=35 (thorough 70) ops mint/transfer/transfer_from/approve/forced_transfer/burn/recover_balance/set_address_frozen/freeze_partial/unfreeze_partial/\
+               pause/unpause/set identity(a)/set compliance answers/set recovery target/advance; amounts relative to balance, free balance, frozen amount and allowance; \
+               explicit authorization entries, 1/10 of holder calls and 1/13 of operator calls mis-authorized); \
+               non-trivial = a correctly authorized movement refused through each of >=3 different closed gates AND >=1 authorized transfer_from AND >=1 successful \
+               forced_transfer/burn/recovery on an account with a partial freeze; distinct = distinct serialised case",
+        subs: vec![gen_sub::<Case>("gates", 2000, 30000, strategy, run)],
+        // <= 1/10 of the minimum measured over seeds 0..5 (quick); thorough runs 15x the cases with longer histories
+        floors: vec![
+            ("nontrivial", 23, 230),
+            ("lib_compliance_case", 19, 190),
+            ("ok:transfer_from", 125, 1250),
+            ("ok:recover_balance", 50, 500),
+            ("recover_carries_partial_freeze", 25, 250),
+            ("recover_carries_address_freeze", 3, 30),
+            ("forced_transfer_unfreezes", 33, 330),
+            ("burn_unfreezes", 30, 300),
+            ("rejected_auth:transfer", 48, 480),
+            ("rejected_auth:transfer_from", 46, 460),
+            ("only:transfer:paused", 20, 200),
+            ("only:transfer:from-frozen", 8, 80),
+            ("only:transfer:to-frozen", 7, 70),
+            ("only:transfer:partial-freeze", 30, 300),
+            ("only:transfer:identity-from", 10, 100),
+            ("only:transfer:identity-to", 8, 80),
+            ("only:transfer:compliance", 18, 180),
+            ("only:transfer_from:paused", 15, 150),
+            ("only:transfer_from:from-frozen", 7, 70),
+            ("only:transfer_from:to-frozen", 6, 60),
+            ("only:transfer_from:partial-freeze", 13, 130),
+            ("only:transfer_from:identity-from", 8, 80),
+            ("only:transfer_from:identity-to", 7, 70),
+            ("only:transfer_from:compliance", 15, 150),
+            ("only:mint:identity-to", 15, 150),
+            ("only:mint:compliance", 16, 160),
+        ],
+        assumptions: vec![
+            "Soroban native test host (auth-tree matching, rollback of failed invocations, TTL rules) is trusted",
+            "the harness RWA token wires RWA::* / pausable::* one-to-one; `operator` = require_auth + equality with a stored admin stands for the RBAC check the docs ask for",
+            "compliance and identity verifier are scripted mocks behind the exact client interfaces the token calls; allowance semantics are C02's subject (visible allowance is read, not modelled)",
+            "mint is asserted to need a verified recipient and compliance approval only (statement); the pause / frozen-address errors the RWAToken trait docs list for mint and burn are counted, not asserted",
+        ],
+    }
 }
